@@ -457,3 +457,41 @@ func Safe(f func() string) (out string) {
 	}()
 	return f()
 }
+
+// Isolated runs one operation of a property in a process of its own (`oxh one <prop> --ops <op>`): a panic in a
+// goroutine started by the code under test cannot be recovered, it would end the harness. The answer is the
+// operation's output, "panic: <message>" when the process died of a panic, "hang" when it did not end in time.
+func Isolated(prop, op string, timeout time.Duration) string {
+	exe, err := os.Executable()
+	if err != nil {
+		return "~isolated: " + err.Error()
+	}
+	cmd := exec.Command(exe, "one", prop, "--ops", op)
+	cmd.Env = append(os.Environ(), "OXV_ISOLATED=1")
+	var out, errb strings.Builder
+	cmd.Stdout = &out
+	cmd.Stderr = &errb
+	if err := cmd.Start(); err != nil {
+		return "~isolated: " + err.Error()
+	}
+	done := make(chan error, 1)
+	go func() { done <- cmd.Wait() }()
+	select {
+	case <-done:
+	case <-time.After(timeout):
+		_ = cmd.Process.Kill()
+		<-done
+		return "hang"
+	}
+	for _, l := range strings.Split(out.String(), "\n") {
+		if strings.HasPrefix(l, "ONE-RESULT ") {
+			return strings.TrimPrefix(l, "ONE-RESULT ")
+		}
+	}
+	for _, l := range strings.Split(errb.String()+"\n"+out.String(), "\n") {
+		if strings.HasPrefix(l, "panic: ") || strings.HasPrefix(l, "fatal error: ") {
+			return strings.TrimSpace(l)
+		}
+	}
+	return "~isolated: no result"
+}
